@@ -23,6 +23,8 @@ def run_case(run, drv, files, pl, single, tag):
             out = os.path.join(box, kind + ".torrent")
             try:
                 metas[kind] = impl.create(kind, root, out, piece_length=pl)
+                cr.ask_createfull(drv, ("createfull", dict(case, creator=kind), metas[kind]), kind,
+                                  files, pl, single, name, metas[kind])
             except Exception as exc:
                 run.fail("impl-vs-spec", dict(case, creator=kind), {"raised": repr(exc)})
         for a, b in (("a2", "v2"), ("a3", "hy")):
